@@ -431,7 +431,7 @@ def _predict_rules(ctx, A, cls, m, fi, r, is_subject):
 IDEMPOTENT = ("builtins.float", "builtins.int", "builtins.bool", "builtins.str")  # f(f(x)) is f(x): clone(get_params()) is stable
 
 
-def _ctor_verbatim(ctx, classes, subjects):
+def _ctor_verbatim(ctx, classes, subjects, minimum=5):
     prog = ctx.prog
     A = Analysis(ctx, max_depth=4)
     n = 0
@@ -462,7 +462,7 @@ def _ctor_verbatim(ctx, classes, subjects):
         else:
             ctx.ob("R19.8", fi.fq, None, True, f"{cname}.__init__ stores its {len(prog.ctor_params(cls))} parameters verbatim",
                    construct=f"{cname}.__init__ verbatim")
-    ctx.floor("R19.8", "estimator constructors", n, 5)
+    ctx.floor("R19.8", "estimator constructors", n, minimum)
 
 
 def _latch_facts(A, prog, cls, mname):
